@@ -74,6 +74,16 @@ def worldFS (old : Option Inode) : FS :=
 def worldNested : FS :=
   { inodes := [dirInode, dirInode, dirInode], names := [(["R"], 0), (["R", "tmp"], 1), (["X"], 2)], fds := [] }
 
+/-- An updater storage directory `R` with its tmp dir `R/tmp` (0700); the resource folder `R/dst` exists or not. -/
+def worldFetch (folder : Bool) (old : Option Inode) : FS :=
+  let tmpI : Inode := { dirInode with mode := 0o700 }
+  match folder, old with
+  | false, _ => { inodes := [dirInode, tmpI], names := [(["R"], 0), (["R", "tmp"], 1)], fds := [] }
+  | true, none => { inodes := [dirInode, tmpI, dirInode], names := [(["R"], 0), (["R", "tmp"], 1), (["R", "dst"], 2)], fds := [] }
+  | true, some n =>
+    { inodes := [dirInode, tmpI, dirInode, n],
+      names := [(destF, 3), (["R"], 0), (["R", "tmp"], 1), (["R", "dst"], 2)], fds := [] }
+
 def worldOld (old : Option Inode) : Obs := old.map fun n => (nodeOf n n.data, [])
 
 def exOldFile : Inode := { kind := .file, mode := 0o644, data := [⟨0, 0, 100⟩], target := "", clean := true }
